@@ -34,7 +34,7 @@ def gen_plan(rng):
     ex = rng.choice([0, 0, 0, 0, 1, 3, 'no_launcher', 'launch_error', 'canceled', 'timeout'])
     p = {'tmgr_in': rng.random() < 0.1, 'agent_in': rng.random() < 0.1, 'exec': ex, 'on_error': rng.random() < 0.35,
          'agent_out': rng.random() < 0.15, 'tmgr_out': rng.random() < 0.15,
-         'has_in': rng.random() < 0.5, 'has_out': rng.random() < 0.6}
+         'has_in': rng.random() < 0.5, 'has_out': rng.random() < 0.6, 'pilot': rng.choice([0, 0, 1, 2])}
     return p
 
 
@@ -74,7 +74,7 @@ def run_bulk(rp, plans):
         tasks, eplans = [], {}
         for k, p in enumerate(plans):
             uid, d, ep = build(tree, k, p)
-            tasks.append(tree.task_dict(rp, uid, d)); eplans[uid] = ep
+            tasks.append(tree.task_dict(rp, uid, d, pid='pilot.%04d' % p.get('pilot', 0))); eplans[uid] = ep
         bus, comps = pipelib.run(rp, tree, tasks, eplans)
     finally:
         shutil.rmtree(root, ignore_errors=True)
@@ -217,7 +217,7 @@ def run(ctx):
 
 
 def _p(**kw):
-    base = {'tmgr_in': False, 'agent_in': False, 'exec': 0, 'on_error': False, 'agent_out': False, 'tmgr_out': False, 'has_in': True, 'has_out': True}
+    base = {'tmgr_in': False, 'agent_in': False, 'exec': 0, 'on_error': False, 'agent_out': False, 'tmgr_out': False, 'has_in': True, 'has_out': True, 'pilot': 0}
     base.update(kw); return base
 
 
@@ -226,6 +226,7 @@ CORPUS = [
     [_p(tmgr_out=True)],                               # FAILED had no exception recorded
     [_p(exec=3, on_error=True), _p(exec='canceled', on_error=True), _p(exec='timeout')],
     [_p(tmgr_in=True), _p(), _p(agent_in=True), _p(exec='no_launcher'), _p(exec='launch_error'), _p(agent_out=True)],
+    [_p(tmgr_in=True, pilot=0), _p(pilot=0), _p(pilot=1), _p(tmgr_in=True, pilot=1), _p(pilot=2)],     # one bulk, several pilots
 ]
 
 
